@@ -262,6 +262,24 @@ def gen_case(rng, malformed=False):
             if rng.random() < 0.7:
                 ops.append(q())
         n = 0
+    if not malformed and not drift and track is None and rng.random() < 0.16:
+        # "buffer player": the caller owns ONE pose array (or one slot of a pose stack), overwrites it IN PLACE, hands the
+        # very same array to update_pose again and looks at the object after every step: a result cached under the
+        # identity or the content of the remembered pose array (which IS that buffer) would survive the step
+        how = rng.choice(["inplace", "inplace", "stack_inplace"])
+        slot = rng.randrange(3)
+        other = gen_other(rng, cur)
+        for _ in range(rng.randint(2, 5)):
+            o = dict(op="update", src=how, pose=gen_pose(rng))
+            if how == "stack_inplace":
+                o["i"] = slot
+            ops.append(o)
+            cur = o["pose"]
+            for _ in range(rng.randint(1, 3)):
+                qk = rng.choice(["aabb", "aabb", "aabb", "support", "first_vertex", "center", "c2o", "gjk"])
+                ops.append(dict(op="support", d=gen_dir(rng)) if qk == "support" else
+                           dict(op="gjk", other=other) if qk == "gjk" else dict(op=qk))
+        n = 0
     for _ in range(n):
         k = rng.random()
         if k < 0.42 or not ops:
@@ -534,7 +552,9 @@ def run(tier, seed, replay=None):
         "case = collider class (sphere/capsule/cylinder/cone/box/ellipsoid/disk/ellipse/mesh) x 0-2 Margin wrappers x "
         "history of 1-8 ops (update_pose with the pose as fresh array | item of an np.stack | returned by a "
         "pytransform3d TransformManager (direct edge / concatenated path) | ONE buffer / one item of a persistent stack that "
-        "the caller overwrites in place and hands over again; 12% 'drift' histories: consecutive poses differ by a rotation of "
+        "the caller overwrites in place and hands over again; 16% of the rest 'buffer player' histories: 2-5 steps, each = the "
+        "SAME array overwritten in place + update_pose(it) + 1-3 of aabb/support/first_vertex/center/collider2origin/gjk, for every class; "
+        "12% 'drift' histories: consecutive poses differ by a rotation of "
         "1e-7..3e-5 rad; support_function | aabb | center | "
         "first_vertex | collider2origin | gjk.gjk vs another collider; 30% 'tracking' histories: the SAME query "
         "immediately before and after each update_pose and twice in a row, the final battery starting with it again); poses = identity / 24 axis permutations (x 45 deg) "
@@ -643,6 +663,19 @@ def run(tier, seed, replay=None):
             hist["ops"][o["op"]] = hist["ops"].get(o["op"], 0) + 1
             if o["op"] == "update":
                 hist["src"][o["src"]] = hist["src"].get(o["src"], 0) + 1
+    # measured: per class, histories in which the SAME buffer is handed to update_pose at least twice with an aabb()
+    # between the first and the last of these calls (aabb() is also part of the final battery)
+    reb = {}
+    for c in cases:
+        if c.get("malformed"):
+            continue
+        idx = {}
+        for k, o in enumerate(c["ops"]):
+            if o["op"] == "update" and o["src"] in ("inplace", "stack_inplace"):
+                idx.setdefault((o["src"], o.get("i")), []).append(k)
+        if any(len(v) >= 2 and any(c["ops"][j]["op"] == "aabb" for j in range(v[0], v[-1])) for v in idx.values()):
+            reb[c["cls"]] = reb.get(c["cls"], 0) + 1
+    hist["same_buffer_updated_again_with_aabb_between_by_cls"] = reb
     R.cov["input_histogram"] = hist
     for c, r in list(zip(cases, results))[:3]:
         R.sample(dict(cls=c["cls"], margins=c["margins"],
